@@ -252,7 +252,7 @@ pub fn execute(st: &mut Stats, spec: &FamilySpec, sc: &Scenario, meta: &Meta, or
     st.evaluations += 1;
     let thr = !meta.sim;
     st.engine(if thr { "THR" } else { "SIM" }, 1);
-    let out = if thr { wl::run_general_thr(sc, 30) } else { wl::run_general(sc) };
+    let out = if thr { wl::run_general_thr(sc, if origin == "hammer" { 0 } else { 30 }) } else { wl::run_general(sc) };
     let an = monitors::analyse(&out.log, spec.fams, meta);
     for (k, v) in &an.counters.c {
         st.count(k, *v);
@@ -337,8 +337,33 @@ pub fn run_family(p: &Params, spec: &FamilySpec) -> (Stats, &'static str) {
                 d.pause_before = d.pause_before.min(2);
             }
         }
+        let mut origin = "random";
+        if thr && spec.property == "C03" && i % 16 == 0 {
+            // "hammer": one stream, both directions, thousands of one-frame writes against a reader that acknowledges
+            // every frame, nothing else on the connection: the writer's credit take races with the task applying
+            // Acknowledge frames at the highest rate the machine gives (real threads, no injected delays)
+            origin = "hammer";
+            let mut r = Rng64::new(mix(seed, 0x4a3));
+            sc.cfg[0].rwnd = *r.pick(&[4u32, 16, 64]);
+            sc.cfg[1].rwnd = *r.pick(&[4u32, 16, 64]);
+            sc.cfg[0].thr = 1;
+            sc.cfg[1].thr = 1;
+            sc.caps = [0, 0];
+            sc.jitter = 0;
+            sc.ws_jitter = false;
+            sc.flush_pending = [0, 0];
+            sc.dgrams.clear();
+            sc.dg_recv = [None, None];
+            sc.binds.clear();
+            sc.faults = [None, None];
+            let mut side = wl::SidePlan::quiet();
+            side.writes = vec![WOp::Write(1); 6000];
+            side.style = wl::RStyle::Read(4096);
+            sc.streams = vec![wl::StreamPlan { sid: 1, opener: 0, open_delay: 0, sides: [side.clone(), side], awaited: [true, true], host_extra: vec![], port: 1 }];
+            st.target("hammer_runs", 1);
+        }
         let meta = Meta { abnormal_end: false, dgram_cap: [sc.cfg[0].dgram_buf, sc.cfg[1].dgram_buf], stream_is_bridge: false, sim: !thr, ..Meta::default() };
-        let c = execute(&mut st, spec, &sc, &meta, "random");
+        let c = execute(&mut st, spec, &sc, &meta, origin);
         record_coverage(&mut st, &sc, &c, spec, seed);
         if st.too_many_violations() {
             break;
